@@ -97,3 +97,37 @@ func validateType(def ast.Type) error {
 
 	return nil
 }
+
+func validateArguments(args []ast.Argument) error {
+	for _, arg := range args {
+		if err := validateType(arg.Type); err != nil {
+			return fmt.Errorf("argument '%s': %w", arg.Name, err)
+		}
+	}
+
+	return nil
+}
+
+func validateOptionCallParameters(parameters []ast.OptionCallParameter) error {
+	for _, parameter := range parameters {
+		if parameter.Argument != nil {
+			if err := validateArguments([]ast.Argument{*parameter.Argument}); err != nil {
+				return err
+			}
+		}
+
+		if parameter.Constant != nil {
+			if err := validateType(parameter.Constant.Type); err != nil {
+				return fmt.Errorf("constant: %w", err)
+			}
+		}
+
+		if parameter.Factory != nil {
+			if err := validateOptionCallParameters(parameter.Factory.Parameters); err != nil {
+				return err
+			}
+		}
+	}
+
+	return nil
+}
